@@ -231,7 +231,8 @@ def run_impl(modname, fam, cases):
     shards = [cases[i:i + fam.shard] for i in range(0, len(cases), fam.shard)]
 
     def do(shard):
-        obs, err = _run_impl_shard(modname, fam, shard, fam.case_timeout * len(shard) + 30)
+        # a healthy shard takes seconds; the cap bounds what a hard-hung worker (a tree that dead-locks outside the scheduler's view) costs
+        obs, err = _run_impl_shard(modname, fam, shard, min(fam.case_timeout * len(shard) + 30, max(420, fam.case_timeout + 30)))
         if obs is not None:
             return obs
         # isolate the culprit(s); once two cases have hung on their own the rest of the shard is not retried
